@@ -40,7 +40,7 @@ CHECKS = {
              "from non-termination; probe statements then check in the same context that no iterator constraint, table lock, pending break/continue, control "
              "entry or block level is left behind."
              ' Added: bodies that change the variables the bounds and the step were taken from (evaluated once); every if / elsif / else chain of <= 3 rules over {true, false, null} at top level, in a loop and in a function; the header family also against the gcc -O2 build.'
-             ' break / continue where no loop of the same function or program runs (10 programs, C++ and C API routes). Mutators reached through a path expression (tt.at(0)) while a row of tt, or tt itself, is iterated: refused, table unchanged, modifiable afterwards. Round 5: forall over 10 kinds of table expression x 3 orders x 4 lengths x 3 bodies. Round 6: writes through the iterator into null elements (rows, strings, bytes, integers, nested, in a function).',
+             ' break / continue where no loop of the same function or program runs (10 programs, C++ and C API routes). Mutators reached through a path expression (tt.at(0)) while a row of tt, or tt itself, is iterated: refused, table unchanged, modifiable afterwards. Round 5: forall over 10 kinds of table expression x 3 orders x 4 lengths x 3 bodies. Round 6: writes through the iterator into null elements (rows, strings, bytes, integers, nested, in a function). Round 7: inner loops that do not run at all inside every kind of outer loop.',
         note="trusted: the reference interpreter (structured semantics of the manual), the step budget (200000 statements) as the non-termination verdict",
         design="DESIGN.md section 4, C06"),
     "C07": dict(
@@ -53,7 +53,7 @@ CHECKS = {
              "handler runs, error@1/@2, the printed trace and the error number/text reported to the host. The program is then run a second time, a top-level "
              "break/continue must not swallow the next statement, and probe statements check that no loop, iterator constraint, table lock, pending "
              "break/continue/return or block level survived."
-             ' Added payloads: user names that only start like a clause name or that clause names start with; a while condition that fails at its second evaluation after a turn that ended with continue. Every residue program also started through bloc_execute2 (route capi2). Round 5: error names of 18 lengths from 1 to 1000 characters (around the 256-byte message buffer) in 5 handler layouts.',
+             ' Added payloads: user names that only start like a clause name or that clause names start with; a while condition that fails at its second evaluation after a turn that ended with continue. Every residue program also started through bloc_execute2 (route capi2). Round 5: error names of 18 lengths from 1 to 1000 characters (around the 256-byte message buffer) in 5 handler layouts. Round 7: clauses sharing a name (first match), error@1 after handlers that themselves raise.',
         note="trusted: the reference interpreter vf/ctl.py; the interactive statement loop of the bloc command is covered by the C19 check",
         design="DESIGN.md section 4, C07"),
     "C01": dict(
@@ -82,7 +82,7 @@ CHECKS = {
              "earlier deep or failed recursions) must succeed up to 255 nested calls and raise the recursion-limit error at the 256th, and LeakSanitizer "
              "must be silent after histories containing failing calls."
              ' Added: calls nested in their own argument lists in the call alphabets, the same callee reached at several nesting levels, recursion-limit probes below k+1 levels of another function after earlier calls at other levels.'
-             ' Calls as the operand of a program-level return; a function defined again after its earlier definition was called (6 x 6 bodies x 4 histories); error@1 outside handlers after a call whose handler raised; a built-in that fails at the second evaluation of an argument. Round 5: a redefinition arriving in a text that calls the function first, or that is rejected; arguments of one call that change each other\'s variables. Round 6: trace mode switched on by one call and locals re-typed by the branch a call took are gone for the next call; the error stream is compared too.',
+             ' Calls as the operand of a program-level return; a function defined again after its earlier definition was called (6 x 6 bodies x 4 histories); error@1 outside handlers after a call whose handler raised; a built-in that fails at the second evaluation of an argument. Round 5: a redefinition arriving in a text that calls the function first, or that is rejected; arguments of one call that change each other\'s variables. Round 6: trace mode switched on by one call and locals re-typed by the branch a call took are gone for the next call; the error stream is compared too. Round 7: unset locals left null with another type by an earlier call; unset locals used by in-place built-ins in the first call of each depth.',
         note="trusted: hand-written expected value per call, LeakSanitizer; histories longer than the bound are not covered",
         design="DESIGN.md section 4, C08"),
     "C10": dict(
@@ -235,7 +235,7 @@ CHECKS = {
              "has exactly one destroy event. Ten programs offer a vmod2 object where vmod was compiled; no method or constructor of one module may run "
              "on an object of the other."
              ' Added: 11 carriers of a foreign object x 10 uses; loops refused at entry or dying in their body; 15 scripts + 4 interactive sessions through the bloc command (file, stdin, --out, -i) with every object destroyed exactly once by process end.'
-             ' Statements that return an object to a host that never collects it; the module logs foreign objects received as arguments; containers are checked against the module their type names. Re-evaluation of one use site with vmod then vmod2 objects (function with untyped parameter, loop over an undefined result); one statement with n object temporaries for 23 sizes up to 513 in 5 shapes. Round 5: a method storing a new object into its own receiver variable (INOUT object argument); a callee that raises while holding objects. Round 6: in-place members on tables / tuples built on the fly that take the object of a variable; forall over an element of a table variable.',
+             ' Statements that return an object to a host that never collects it; the module logs foreign objects received as arguments; containers are checked against the module their type names. Re-evaluation of one use site with vmod then vmod2 objects (function with untyped parameter, loop over an undefined result); one statement with n object temporaries for 23 sizes up to 513 in 5 shapes. Round 5: a method storing a new object into its own receiver variable (INOUT object argument); a callee that raises while holding objects. Round 6: in-place members on tables / tuples built on the fly that take the object of a variable; forall over an element of a table variable. Round 7: a method returning another object on a temporary receiver; forall over a temporary table of objects.',
         note="trusted: the holder model; late destruction (before release) is allowed by the property and not flagged",
         design="DESIGN.md section 4, C17"),
     "C18": dict(
@@ -253,7 +253,7 @@ CHECKS = {
              "by Python's sqlite3 from the same database file: value and SQL type must match. Every method of the four modules is called with null / "
              "out-of-range / wrong-type-state arguments on fresh, closed and null objects. Every case runs in its own process under ASan+UBSan."
              ' Added: utf8 insert / concat of unicode strings (another one and itself) against Python, object arguments offered to utf8 (own, null, foreign through a function with a declared result type); files and read requests sized around the module buffer, long lines through readln; the sqlite3 prepared-statement path (bind, execute, fetch) against query().'
-             ' A prepared statement bound three times (values, nulls, values); a write without final newline in the quick file alphabet. Round 5: INOUT variables in every state; sqlite3 statement states (prepared, stepped, closed under it, reopened, finalized); the cursor of a prepared statement as a state machine (all sequences of length <= 5 / 7). Round 6: well-formed text at the edges of every UTF-8 encoding length; file objects after a failed re-open; state reports (isopen) after failed operations.',
+             ' A prepared statement bound three times (values, nulls, values); a write without final newline in the quick file alphabet. Round 5: INOUT variables in every state; sqlite3 statement states (prepared, stepped, closed under it, reopened, finalized); the cursor of a prepared statement as a state machine (all sequences of length <= 5 / 7). Round 6: well-formed text at the edges of every UTF-8 encoding length; file objects after a failed re-open; state reports (isopen) after failed operations. Round 7: the five utf8 transforms followed by an append.',
         note="trusted: Python codecs/sqlite3, the twin-file semantics; size arguments capped; plplot cannot be built here and is not claimed; two utf8 findings recorded (KNOWN_FINDINGS.txt)",
         design="DESIGN.md section 4, C18"),
     "C19": dict(
@@ -270,7 +270,7 @@ CHECKS = {
              "transcripts (prompts, echo, banner, Elapsed removed) print the same lines in the same order as the library's statement-at-a-time run; a saved "
              "session run again prints the same and saving the loaded session gives the same text."
              ' Added: 12 source bytes x 6 places through file / stdin / --out, option-like program arguments (-e, -i, --parse, --out=), a missing --out file is a violation, save / load sessions from the C12 statement programs.'
-             ' 33 compile errors at places computed from the text (after block / line comments, multi-line strings, tabs, blank lines, inside a loop) compared with the reported line:column. Argument vectors that repeat a word or contain the program operand (file, relative file, -); returned / -e strings containing %. Round 5: -e with one word / many words / --out, expressions beginning with a minus sign, words after a complete expression; every console command word as a variable in 7 statement forms; calls of functions named like commands. Round 6: equal signs inside the --out path; physical lines of 900 .. 3100 bytes through the interactive reader.',
+             ' 33 compile errors at places computed from the text (after block / line comments, multi-line strings, tabs, blank lines, inside a loop) compared with the reported line:column. Argument vectors that repeat a word or contain the program operand (file, relative file, -); returned / -e strings containing %. Round 5: -e with one word / many words / --out, expressions beginning with a minus sign, words after a complete expression; every console command word as a variable in 7 statement forms; calls of functions named like commands. Round 6: equal signs inside the --out path; physical lines of 900 .. 3100 bytes through the interactive reader. Round 7: returned nulls of every type.',
         note="trusted: the library run as reference; the ASan build of the bloc executable; terminal colour codes are stripped",
         design="DESIGN.md section 4, C19"),
     "C15": dict(
